@@ -72,6 +72,22 @@ CHECKS = {
          "Every machine cycle in which the 160 OAM bytes change is attributed to a predicted CPU write, a running DMA transfer, or LCD-on mode 2; the LCD is switched off at each of 456 (line, offset) points while programs drive BC/DE/HL/SP through FE00-FEFF.",
          "OAM observed through a snapshot hook; any change in LCD-on mode 2 is accepted (corruption patterns are not part of the statement).",
          "DESIGN.md §4 C17"),
+ "C18": ("reference register-file monitor: the whole FF10-FF3F block read back after every operation of random write / power / wave RAM / elapse histories",
+         "1600 (quick) histories of 300 operations: after each operation all sound registers, the unused addresses between them and wave RAM are read through the Mapper and compared with the mask table, the power rules and the retained wave RAM contents.",
+         "NR52 status bits taken from the machine (C19); wave RAM judged only with channel 3 off.",
+         "DESIGN.md §4 C18"),
+ "C19": ("reference length/status model compared with NR52 after every machine cycle; black-box calibration of the 512 Hz phase; structured phase sweeps, random schedules, runs across the one-second boundary, dmg_sound ROMs",
+         "Per channel x length data x trigger/enable pattern x 20 sequencer phase offsets the exact cycle of every status change is compared (5e8 comparisons per quick run), including the extra length clock cases; random schedules mix length, DAC, trigger, sweep and power writes.",
+         "Phase calibrated at the register interface; safety form only for channel 1 with a live sweep and for the re-trigger-at-maximum corner.",
+         "DESIGN.md §4 C19"),
+ "C20": ("sample-stream monitor (per-cycle counting, 95-clock spacing by interval intersection, bounds, routing), paired runs for non-interference, producer/consumer sequence comparison through gameboy.New against the fake PortAudio under the race detector",
+         "Every sample of random register schedules over several emulated seconds is checked for pacing (exactly 95 clocks apart within a powered-on stretch, none while off), range and routing; paired runs differing only in an unrouted channel must give bit-identical streams; through gameboy.New the delivered sequence must equal the produced one exactly once and in order (race-detector build, injected consumer stalls).",
+         "Grid phase across power-off not asserted; fake PortAudio runs the real Speakers.Callback on its own goroutine.",
+         "DESIGN.md §4 C20"),
+ "C21": ("waveform-step timing by interval intersection at machine-cycle resolution for every frequency / NR43 value; LFSR output compared with the maximal sequence",
+         "All 2048 frequencies on channels 1-3 and all 224 NR43 values with s <= 13 are timed over runs of consecutive steps (a period off by one clock is refuted within a few steps); the LFSR output bits are compared with the 15-bit / 7-bit maximal sequences, with full periods observed for the fast settings.",
+         "Positions and LFSR observed through the audio hook; steady state only.",
+         "DESIGN.md §4 C21"),
  "C22": ("reference-model monitor over the complete reachable controller state space (BFS), real Controller driven through Mapper FF00",
          "Every transition of the reachable joypad state space (576 states x 272 events) is executed on the real controller and JOYP compared with a 10-line reference under all four select values; exhaustive for the finite space, so the residual risk is the reference itself.",
          "Trusts the reference joypad (held sets, active-low, AND of selected groups) as the reading of the statement.",
